@@ -221,6 +221,12 @@ TEnd ==
   /\ cfg' = [cfg EXCEPT !.epoch = @ + 1]
   /\ UNCHANGED <<cst, dying, uid, uname, everNames, queue, rules, pend, mon, out>>
 
+TEndDebug ==
+  /\ Debug /\ IsRound /\ AllOpsDone /\ sdone = SyncSlots
+  /\ PrintT(<<"ENDSTATE", ToJson([l |-> l, epoch |-> cfg.epoch, pend |-> pend, kicked |-> kicked, eof |-> EofSet, cnt |-> cnt,
+                                 lens |-> [r \in Slot |-> Len(Ev.obs[r])], gone |-> gone, expMust |-> Ev.expMust])>>)
+  /\ FALSE /\ UNCHANGED vars /\ UNCHANGED tvars
+
 TReset ==
   /\ l <= Len(Log) /\ Ev.e = "Reset" /\ l > 1
   /\ \E p \in PolicyChoices(Ev.cfg.policy) :
@@ -233,7 +239,7 @@ TReset ==
 
 TFirst == l = 1 /\ l' = 2 /\ UNCHANGED vars /\ UNCHANGED <<pos, cnt, sdone, gone, kicked, devs, skipd, carry>>
 
-TNext == \/ TFirst \/ TReset \/ TEnd
+TNext == \/ TFirst \/ TReset \/ TEnd \/ TEndDebug
          \/ \E s \in Slot : TStep(s) \/ TSync(s) \/ TDrop(s) \/ TSkip(s)
          \/ \E i \in 1..Len(pend) : TExpire(i)
 
